@@ -61,7 +61,7 @@ fn table() -> Vec<(&'static str, RunFn, RecheckFn)> {
 }
 
 fn usage() -> ! {
-    eprintln!("usage: svmc <C01..C20|selftest> [--tier quick|thorough] [--seed N] [--threads N] [--replay FILE]");
+    eprintln!("usage: svmc <C01..C20|selftest> [--tier quick|thorough] [--seed N] [--threads N] [--replay FILE] [--only INDEX]");
     std::process::exit(2)
 }
 
@@ -79,6 +79,7 @@ fn main() {
     let mut seed: u64 = std::env::var("VERIF_SEED").ok().and_then(|s| s.parse::<i64>().ok()).map(|v| v as u64).unwrap_or(0);
     let mut threads = std::thread::available_parallelism().map(|n| n.get()).unwrap_or(8).min(16);
     let mut replay: Option<String> = None;
+    let mut only: Option<u64> = None;
     let mut i = 1;
     while i < args.len() {
         match args[i].as_str() {
@@ -98,6 +99,10 @@ fn main() {
             "--threads" => {
                 i += 1;
                 threads = args.get(i).and_then(|s| s.parse().ok()).unwrap_or_else(|| usage());
+            }
+            "--only" => {
+                i += 1;
+                only = Some(args.get(i).and_then(|s| s.parse().ok()).unwrap_or_else(|| usage()));
             }
             "--replay" => {
                 i += 1;
@@ -120,10 +125,11 @@ fn main() {
         eprintln!("MACHINERY: unknown property {id}");
         std::process::exit(2);
     };
+    install_crash_handler(&id);
     if let Some(path) = replay {
         std::process::exit(replay_file(&path, &id, &|c| recheckf(c)));
     }
-    let mut run = Run::new(Ctx { id: id.clone(), tier, seed, threads });
+    let mut run = Run::new(Ctx { id: id.clone(), tier, seed, threads, only });
     let fin = runf(&mut run);
     let code = finish(run, fin, &|c| recheckf(c));
     std::process::exit(code);
